@@ -278,9 +278,19 @@ func (t *Task) removeFromQueues() {
 // runWithLocking starts the task, if possible. If queued is set, the execution
 // occupies the queue slot: the queue handler will wait for it before starting
 // the next queued task. It must only be set by the queue handler itself.
-func (t *Task) runWithLocking(queued bool) {
+func (t *Task) runWithLocking(queued bool, popped *list.Element) {
 	vhook.AtS("modules.task.prerun", t.name)
 	t.lock.Lock()
+
+	// The queue handler popped an element of this task from a queue before it
+	// took the task lock. Check that it still is the task's current element: the
+	// overdue path may have started the task for the same submission in the
+	// meantime (which removed it from all lists). Acting on the stale element
+	// would run the task once too often.
+	if queued && popped != t.queueElement && popped != t.prioritizedQueueElement {
+		t.lock.Unlock()
+		return
+	}
 
 	// The schedule handler decided to start this task as overdue before it took
 	// the task lock. Check that this still holds: the queue handler may have
@@ -548,7 +558,7 @@ func taskQueueHandler() {
 			// value -> Task
 			t := e.Value.(*Task) //nolint:forcetypeassert // Can only be *Task.
 			// run
-			t.runWithLocking(true)
+			t.runWithLocking(true, e)
 		}
 	}
 }
@@ -600,7 +610,7 @@ func taskScheduleHandler() {
 				scheduleLock.Unlock()
 				vhook.AtS("modules.sched.decided", t.name)
 
-				t.runWithLocking(false)
+				t.runWithLocking(false, nil)
 			} else {
 				// place in front of prioritized queue
 				t.overtime = true
